@@ -13,7 +13,7 @@ pub fn scenario_regime(tier: &str, poor_debt: bool) -> (Life, Bounds) {
         name: if poor_debt { "c05-poor-debt" } else { "c05" },
         periods: if th { 5 } else { 3 },
         devs: if th { 2 } else { 1 },
-        bases: if poor_debt { vec!["one-deadline-aged-debt", "long-faulty-debt"] } else if th { vec!["one-deadline", "two-deadlines", "one-deadline-aged", "two-deadlines-aged"] } else { vec!["one-deadline-aged", "two-deadlines"] },
+        bases: if poor_debt { vec!["one-deadline-aged-debt", "long-faulty-debt", "one-deadline-aged-wound-debt"] } else if th { vec!["one-deadline", "two-deadlines", "one-deadline-aged", "two-deadlines-aged"] } else { vec!["one-deadline-aged", "two-deadlines"] },
         oracles: Oracles { c05: true, ..Default::default() },
         sector_sets: if th { sets_all() } else { sets_small() },
         known_open: mcx::evidence::known_open("C05"),
